@@ -36,16 +36,22 @@ THEOREMS += [
     'CC.C17_circuit_table_wellformed', 'CC.C17_circuit_loads_given', 'CC.C17_circuit_faithful', 'CC.C17_circuit_bad_value_block',
     'CC.C17_circuit_ctor_tables_agree', 'CC.C17_circuit_constructor_half', 'CC.C17_circuit_translator_reads_loaded',
 ]
+# round 5b (CC/Properties/C17Simulation.lean): the two constructor interpreters simulate each other; Load.accepts is exact
+LEAN_MODULE_EXTRA = list(LEAN_MODULE_EXTRA) + ['CC.Properties.C17Simulation']
+THEOREMS += [
+    'CC.C17_constructors_simulate', 'CC.C17_constructors_simulate_cases', 'CC.C17_loaders_simulate', 'CC.C17_loader_table_lookup',
+    'CC.C17_simulation_needs_unique_keys', 'CC.C17_circuit_accepts_iff', 'CC.C17_circuit_rejects',
+]
 OPEN_STATEMENTS = [
-    'circuit loader, constructor half as a simulation: CC.Properties.C17Circuit proves the clause "every kind of the circuit table loads to exactly '
-    'the given id, nodes and value" on the loader model, through the dictionary → constructor-call step (C17_circuit_fields, C17_circuit_faithful, '
-    'typed errors, extra entry keys ignored / extra value keys rejected), and ties it to the Circuit group\'s constructor model by agreeing generated '
-    'descriptions (C17_circuit_ctor_tables_agree, C17_circuit_constructor_half with CC.C19_stored_unaltered / CC.C07_reads_written); NOT a theorem: '
-    'that the two hand-written constructor interpreters (Load.callCompFactory, CtorSpec.construct) return equal results on equal arguments '
-    '(both are tied to the code by their correspondence runs)',
-    'circuit loader: Load.accepts is characterised by a sufficient condition only (Load.accepts_of); that a value block which is not accepted always '
-    'raises (guard ValueError, AttributeError of .real/.imag) is covered by correspondence + fault streams, proved only for unknown / missing keywords '
-    'and non-mappings (C17_circuit_bad_value_block); Circuit.__post_init__ on the component list is C19\'s',
+    'circuit loader, simulation of the two constructor interpreters (closed in round 5b by C17_constructors_simulate / C17_loaders_simulate up to the '
+    'explicit translation Load.J.toVal? / Load.Obj.toArgs?): what stays outside the theorem is by type — a value block with a None / list / dictionary '
+    'leaf has no counterpart in the Circuit group\'s `Val` (the loader side alone: C17_circuit_rejects), `Val.inf` has no JSON counterpart, a boolean '
+    'leaf is identified with the number it equals (True ↦ 1), the value block must have no key twice (C17_simulation_needs_unique_keys: not droppable '
+    'for key lists that are no Python dict), and for a `type` outside the table the two models name one Python exception differently '
+    '(.other "UnknownCircuitComponent" / .unknownKind); both models remain tied to the code by their correspondence runs only',
+    'circuit loader: Circuit.__post_init__ on the component list (mkCircuit) is C19\'s; Load.accepts is now exact (C17_circuit_accepts_iff) and every '
+    'failing branch is named with its exception (C17_circuit_rejects) for entries whose `value` is a dictionary and whose `type` is a kind of the table '
+    '(other entries: C17_circuit_missing_key, C17_circuit_unknown_kind, C17_circuit_bad_value_block)',
 ]
 ASSUMPTIONS = [
     'json/yaml are parameters of the model: `loads (dumps t) = t` on plain trees for the library pairs of the two tables (LosslessCodec; checked per case by the round-trip oracle; satisfiability shown by a toy codec only)',
